@@ -435,7 +435,7 @@ rel(le, X, Y) :- X =< Y.   rel(ne, X, Y) :- X =\\= Y.  rel(ge, X, Y) :- X >= Y.
 """
 
 
-def replay_number_comparisons(problems):
+def replay_number_comparisons(problems, prop="C04"):
     """exact comparison of integers / rationals of any size, comparison through doubles with
     floats; the six predicates must agree with each other. Expected sets from Python values."""
     from fractions import Fraction
@@ -464,4 +464,4 @@ def replay_number_comparisons(problems):
     cases.append(("N is 2^60-2^60+2, functor(T, foo, N), show(T)", "foo(_A,_B)"))
     cases[-1] = ("N is 2^60-2^60+2, functor(T, foo, N), functor(T, F, A), show(F/A)", "foo/2")
     cases.append(("N is 2^60-2^60+0, functor(T, foo, N), show(T)", "foo"))
-    return run_cases(NUMCMP_PROGRAM, cases, {"model": problems[:6]}, "C04", "number_comparisons")
+    return run_cases(NUMCMP_PROGRAM, cases, {"model": problems[:6]}, prop, "number_comparisons")
